@@ -98,9 +98,35 @@ def r_alpha(ctx, fqs, floor=0):
         f = ctx.p.func(fq)
         k = 0
         seen = set()
+
+        def is_lit(x):
+            return x[0] == 'c' and isinstance(x[1], str) and len(x[1]) == 4 and set(x[1].upper()) == set('ACGT')
+        # the literal in a CONVERSION role: LIT[i], LIT.index(x) / LIT.find(x), enumerate(LIT), dict(zip(LIT, ...)).  A literal that is
+        # only searched (x in LIT), or is the table of a complement map (maketrans / translate / replace), says nothing about indices
+        conv = set()
+        mentioned = set()
         for nd, s in ctx.all_subterms(f):
-            if s[0] == 'c' and isinstance(s[1], str) and len(s[1]) == 4 and set(s[1].upper()) == set('ACGT') \
-                    and s[1] not in seen:
+            if is_lit(s):
+                mentioned.add(s[1])
+            if s[0] == 'sub' and is_lit(s[1]):
+                conv.add((s[1][1], nd.lineno))
+            if s[0] == 'attr' and s[2] in ('index', 'find', 'rindex', 'rfind') and is_lit(s[1]):
+                conv.add((s[1][1], nd.lineno))      # called, or handed on as a function (map(LIT.index, ...))
+            if s[0] in ('iter', 'idx') and is_lit(s[1]):
+                conv.add((s[1][1], nd.lineno))
+            if is_call(s, 'builtins.enumerate', 'builtins.zip') and any(is_lit(a) for a in s[2]) and \
+                    not any(a[0] == 'c' and a[1] != s[2][0][1] and is_lit(a) for a in s[2][1:]):
+                for a in s[2]:
+                    if is_lit(a):
+                        conv.add((a[1], nd.lineno))
+        for lit in sorted(mentioned - {c for c, _l in conv}):
+            if lit not in seen:
+                seen.add(lit)
+                n += 1          # present, but not in a conversion role
+        for lit, line in sorted(conv):
+            s = ('c', lit)
+            nd = type('N', (), {'lineno': line})
+            if s[1] not in seen:
                 seen.add(s[1])
                 n += 1
                 k += 1
